@@ -15,6 +15,9 @@ def mapClear (_ : List (Nat × Nat)) : List (Nat × Nat) := []
 
 /-- `old|new`: a map holding `old` is cleared, then `new` is mapped -/
 def parseLayout (s : String) : Option (List (Nat × Nat)) :=
+  -- `rd~…`: the map was obtained by `PdoMap.read` from mapping parameters naming these objects
+  -- and lengths in this order; the variables and their lengths are the same
+  let s := if s.startsWith "rd~" then (s.drop 3).toString else s
   match s.splitOn "|" with
   | [l] => parseLayout1 l
   | [old, new] => do let o ← parseLayout1 old; let n ← parseLayout1 new; pure (mapClear o ++ n)
